@@ -496,6 +496,10 @@ func (w *world) opLose(t *inst, op Op) {
 	rver := t.ver
 	if op.P == "otherver" {
 		rver = t.ver + 7
+		if (op.N/17)%2 == 1 && t.ver > 4 {
+			rver = t.ver - 1 - int64(op.N%3) // the repairing trie is OLDER than the nodes it fetches
+			w.stats.Inc("probe.repair-at-a-lower-version")
+		}
 		w.stats.Inc("probe.repair-other-version")
 	}
 	rep := util.NewMerklePatriciaTrie(t.db, util.Sequence(rver), root, w.newCache())
@@ -617,6 +621,19 @@ func (w *world) opLose(t *inst, op Op) {
 				return // the update itself ran into an absent node
 			}
 			r2 = append(util.Key{}, T.GetRoot()...)
+			if (op.N/4)%2 == 1 {
+				// the first save is refused by the store (I/O error) and given up; the trie object lives on into
+				// the next version, takes another update and is saved then
+				if err := T.SaveChanges(context.Background(), &refuseBatchDB{NodeDB: S}, false); err == nil {
+					panic("a save into a store that refuses the batch reported success")
+				}
+				T.SetVersion(util.Sequence(rver + 1))
+				if _, err := T.Insert(util.Path("0d"), val([]byte("saved-in-the-next-version"))); err != nil {
+					return
+				}
+				r2 = append(util.Key{}, T.GetRoot()...)
+				w.stats.Inc("probe.save-given-up-then-saved-in-the-next-version")
+			}
 			if err := T.SaveChanges(context.Background(), S, false); err != nil {
 				return
 			}
@@ -643,6 +660,13 @@ func (w *world) opLose(t *inst, op Op) {
 	}
 	// the original trie object continues
 	t.mpt = check
+}
+
+// refuseBatchDB fails every batch write with an I/O error and writes nothing.
+type refuseBatchDB struct{ util.NodeDB }
+
+func (r *refuseBatchDB) MultiPutNode(keys []util.Key, nodes []util.Node) error {
+	return fmt.Errorf("injected I/O error: batch of %d nodes refused", len(keys))
 }
 
 func subset(a, b map[string]bool) bool {
